@@ -15,7 +15,7 @@ SPEC = {
             'length 3 (4 thorough), plus random sequences of 4-12 operations with malformed contacts (missing/short seed, '
             'missing/bad key), the account\'s own key, absent metadata and changing seeds, run on the real MetadataStore of a fresh '
             'account group (12 sequences per account, fresh contacts per sequence); accept/refuse results and the indexed record '
-            '(state, metadata, seed, own metadata) of every contact are compared with the model after each sequence, and per '
+            '(state, metadata, seed, own metadata) of every contact are compared with the model after each sequence, the same record must be returned by GetContactFromGroupPK for the derived contact-group key and by ListContactsByStatus for exactly its state, and per '
             'account on a second device that replays the whole log in one batch and on the reopened group; '
             'non-trivial = sequence of >= 2 operations / every batch; distinct = operation sequence',
     'trusted_base': [
